@@ -65,25 +65,51 @@ theorem C08_keywise_consumer_order_independent {κ α : Type} [DecidableEq κ] (
     rangeLoop (writeBody v) (o₁.filter mustSeal) m = rangeLoop (writeBody v) (o₂.filter mustSeal) m :=
   C08_write_order_independent v (C08_seal_lists_perm mustSeal h) m
 
-/-! ## CheckTx / simulation isolation (F-08a) -/
+/-! ## CheckTx / simulation isolation (F-08a, fixed in the repository) -/
 
-/-- the full statement: a handler run on the check state leaves what EndBlock commits unchanged -/
-def C08_full : Prop := ∀ (p : Int) (n : Node), (endBlock (updateParamsHandler true p n)).store = (endBlock n).store
+/-- The full statement: whatever oracle handlers a node executes on the check state (any number of
+simulated UpdateParams / RegisterNewTokenAndSetTokenFeeder / CreatePrice calls, in any order, with any
+arguments), the node's next EndBlock commits exactly what it would have committed without them, and
+leaves the same pending cache. -/
+def C08_full : Prop :=
+  ∀ (calls : List CheckCall) (n : Node),
+    (endBlock (calls.foldl (fun m c => c.run true m) n)).consensusView = (endBlock n).consensusView
 
-/-- it fails for the code as it is: simulating an oracle MsgUpdateParams makes the next EndBlock
-commit different state (replayed on the real app by the harness, sig
-`simulate-changes-apphash:oracle-update-params`). -/
-theorem C08_full_fails : ¬ C08_full := by
-  intro h
-  have := h 7 { store := 1, cacheParams := 0, cacheDirty := false }
-  simp [endBlock, updateParamsHandler] at this
+theorem checkCall_consensusView (c : CheckCall) (n : Node) : (c.run true n).consensusView = n.consensusView := by
+  cases c with
+  | updateParams p => simp [CheckCall.run, updateParamsHandler]
+  | registerToken p => simp [CheckCall.run, registerTokenHandler]
+  | createPrice f fd it =>
+    cases f <;> simp [CheckCall.run, createPriceHandler, Node.consensusView]
 
-/-- with the guard the other oracle handlers use, the check-state execution is invisible -/
-theorem C08_checktx_does_not_touch_deliver_state_partial (p : Int) (n : Node) :
-    endBlock (updateParamsGuarded true p n) = endBlock n := by
-  simp [updateParamsGuarded]
+theorem endBlock_consensusView (a b : Node) (h : a.consensusView = b.consensusView) :
+    (endBlock a).consensusView = (endBlock b).consensusView := by
+  simp only [Node.consensusView, Prod.mk.injEq] at h
+  obtain ⟨h1, h2, h3, h4⟩ := h
+  simp [endBlock, Node.consensusView, h1, h2, h3, h4]
 
-example : (endBlock (updateParamsGuarded false 7 { store := 1, cacheParams := 0, cacheDirty := false })).store = 38 := by
+/-- CheckTx isolation holds for the oracle handlers as they are (all three guard their cache writes
+with `!ctx.IsCheckTx()`; tied to the source by `C08_unguarded_cache_writers`). -/
+theorem C08_checktx_does_not_touch_deliver_state : C08_full := by
+  intro calls n
+  apply endBlock_consensusView
+  induction calls generalizing n with
+  | nil => rfl
+  | cons c rest ih =>
+    simp only [List.foldl_cons]
+    rw [ih (c.run true n), checkCall_consensusView]
+
+/-- The guard is what the theorem rests on: the pre-fix UpdateParams (AddCache in every mode) makes a
+simulated tx change the next commit (this is the history the harness keeps replaying as a regression,
+sig `simulate-changes-apphash:oracle-update-params`). -/
+theorem C08_guard_is_necessary :
+    ∃ p n, (endBlock (updateParamsUnguarded true p n)).store ≠ (endBlock n).store :=
+  ⟨7, { store := 1, cacheParams := 0, cacheDirty := false, cacheMsgs := [], updatedFeeders := [] }, by decide⟩
+
+/-- in deliver mode the handlers do reach the store at EndBlock (the statement is not vacuous) -/
+example : (endBlock (updateParamsHandler false 7 { store := 1, cacheParams := 0, cacheDirty := false, cacheMsgs := [], updatedFeeders := [] })).store = 38 := by
+  decide
+example : (endBlock (createPriceHandler false false 2 5 { store := 1, cacheParams := 0, cacheDirty := false, cacheMsgs := [], updatedFeeders := [] })).store = 38 := by
   decide
 
 /-! ## site ↔ shape table -/
